@@ -10,7 +10,7 @@ Import ListNotations.
 (* Stop barrier, trace form. For EVERY configuration of the repaired protocol (any number of producers, EmitSync
    callers, AddSink callers, Stop callers, workers; any sinks, incl. panicking and re-entrant ones; window / CEP or
    not; the three strategies) and EVERY schedule, the observable trace is accepted by the monitor chk_C18:
-   once some Stop has returned and no Stop is in progress, no sink invocation begins (not even a CEP flush, which
+   once some Stop has returned and no Stop is in progress, no sink invocation begins or is still running (not even a CEP flush, which
    happens inside the winning Stop), and an EmitSync that begins after that point is refused. The only verdict
    other than "accepted" is that a Stop gave up after its grace period. *)
 Theorem C18_stop_barrier : forall c cap0 async sync roles sched, c_track_sync c = true ->
